@@ -10,6 +10,7 @@
 mod fw;
 mod refeval;
 mod c04;
+mod c08;
 mod c16;
 
 use fw::*;
@@ -18,6 +19,7 @@ use std::time::{Duration, Instant};
 fn make_check(prop: &str, tier: Tier) -> Option<Box<dyn Check>> {
     Some(match prop {
         "C04" => Box::new(c04::C04::new(tier)),
+        "C08" => Box::new(c08::C08::new(tier)),
         "C16" => Box::new(c16::C16::new(tier)),
         _ => return None,
     })
